@@ -94,7 +94,7 @@ func (propC18) Gen(r *Rand) *Plan {
 			case 3:
 				ops = append(ops, Op{Op: "removevar", S: r.Pick(append(append([]string{}, exprVarPool...), "A", "TOTAL"))})
 			case 4:
-				ops = append(ops, Op{Op: "clearvars"})
+				ops = append(ops, Op{Op: r.Pick([]string{"clearvars", "clearvars", "clearall"})})
 			case 5:
 				ops = append(ops, Op{Op: "eval"})
 			case 6:
@@ -107,7 +107,11 @@ func (propC18) Gen(r *Rand) *Plan {
 		n := r.Range(2, 10*r.Size())
 		var ops []Op
 		for i := 0; i < n; i++ {
-			switch r.Weighted([]int{6, 2, 3, 2, 3}) {
+			switch r.Weighted([]int{6, 2, 3, 2, 3, 1, 1}) {
+			case 5:
+				ops = append(ops, Op{Op: "setdefaults", S: r.Pick(tmplVarPool), S2: r.Pick([]string{"", "d"})})
+			case 6:
+				ops = append(ops, Op{Op: "clearall"})
 			case 0:
 				g := NewTmplGen(r)
 				text := g.Gen(2)
@@ -853,6 +857,12 @@ func c18Calculator(ops []Op, run *Run, out *Outcome) int {
 			calc.DefaultVariables().Clear()
 			model = nil
 			changes++
+		case "clearall":
+			calc.Clear() // forgets the expression and the default variables
+			model = nil
+			haveExpr, curVars, curFn, curUnknownFn = false, nil, "", ""
+			changes++
+			out.Probes["calculator_cleared"]++
 		case "eval":
 			if !haveExpr {
 				continue
@@ -984,6 +994,15 @@ func c18Template(ops []Op, run *Run, out *Outcome) int {
 			}
 			t.DefaultVariables()[o.S] = o.S2
 			model[o.S] = o.S2
+			changes++
+		case "setdefaults":
+			// the caller installs a map of its own as default variables
+			t.SetDefaultVariables(map[string]string{o.S: o.S2})
+			model = map[string]string{o.S: o.S2}
+			changes++
+		case "clearall":
+			t.Clear()
+			model = map[string]string{}
 			changes++
 		case "removevar":
 			delete(t.DefaultVariables(), o.S)
